@@ -151,7 +151,9 @@ func (p *RevProfile) genFault(t *Tape, sc *RevScenario, kind string) Fault {
 	f := Fault{Kind: k}
 	switch k {
 	case FStatus:
-		f.Param = []int{404, 500, 503, 204, 301, 403}[t.Choose(6)]
+		f.Param = []int{404, 500, 503, 204, 301, 403, 206, 304, 201, 429}[t.Choose(10)]
+	case FRedirect:
+		f.Param = []int{302, 301, 303, 307, 308}[t.Weighted(40, 15, 15, 15, 15)]
 	case FTruncate:
 		f.Param = []int{500, 0, 999, 10, 900}[t.Choose(5)]
 	case FBodyStall:
@@ -558,7 +560,8 @@ func (p *RevProfile) genWorld(t *Tape, sc *RevScenario, id int) *World {
 			if faulty && p.HostileURL > 0 && t.Bool(p.HostileURL) {
 				s.URLKind = 1 + t.Choose(nURLKinds-1)
 			}
-			s.URL = makeURL(s.URLKind, s.Host, "/ocsp")
+			// responder URLs come with and without path, trailing slash and query
+			s.URL = makeURL(s.URLKind, s.Host, []string{"/ocsp", "", "/", "/a/b/", "/ocsp?tenant=1", "/ocsp/"}[t.Weighted(60, 8, 8, 8, 8, 8)])
 			dev := faulty && sc.Config >= 2 && t.Bool(p.PSrcFault)
 			s.Content = p.genOCSPContent(t, sc, truth, dev)
 			if faulty && sc.Config != 2 && t.Bool(p.PSrcFault) {
@@ -572,7 +575,7 @@ func (p *RevProfile) genWorld(t *Tape, sc *RevScenario, id int) *World {
 			if faulty && p.HostileURL > 0 && t.Bool(p.HostileURL) {
 				s.URLKind = 1 + t.Choose(nURLKinds-1)
 			}
-			s.URL = makeURL(s.URLKind, s.Host, "/ca.crl")
+			s.URL = makeURL(s.URLKind, s.Host, []string{"/ca.crl", "/crl/ca.crl?v=2", "/", ""}[t.Weighted(76, 8, 8, 8)])
 			s.BaseNum = int64(10 + t.Choose(5))
 			dev := faulty && sc.Config >= 2 && t.Bool(p.PSrcFault)
 			s.Base = p.genCRLPlan(t, sc, truth, dev, false)
